@@ -619,9 +619,20 @@ func NavPhase(d *debugger.Debugger, c Case, run *Run, snap snapshot) {
 				return
 			}
 			var line string
+			jumpTo := 0
 			switch rq.Intn(3) {
 			case 0:
 				to := 1 + rq.Intn(len(snap.msgs))
+				// the ends of the log are where bounds checks slip
+				switch rq.Intn(8) {
+				case 0, 1:
+					to = len(snap.msgs)
+				case 2:
+					to = 1
+				case 3:
+					to = max(1, len(snap.msgs)-1)
+				}
+				jumpTo = to
 				line = fmt.Sprintf("dbg nav %d set %d", before.cursor, to)
 				if rq.Intn(2) == 0 {
 					mutate(d, ss.ScrollToTx, &types.A{CursorTx1: to})
@@ -643,6 +654,18 @@ func NavPhase(d *debugger.Debugger, c Case, run *Run, snap snapshot) {
 			run.Lines = append(run.Lines, line)
 			run.Obs = append(run.Obs, fmt.Sprintf("cursor=%d", after.cursor))
 			run.Navs++
+			// a jump to a record the filters show (or with no filter on) lands on that record
+			if jumpTo > 0 {
+				visible := !after.active
+				for _, i := range after.shown {
+					if i == jumpTo-1 {
+						visible = true
+					}
+				}
+				if visible && after.cursor != jumpTo {
+					run.Failures = append(run.Failures, fmt.Sprintf("a jump to transition %d of %d (shown under filters %s) left the cursor on %d", jumpTo, len(snap.msgs), after.flags, after.cursor))
+				}
+			}
 			if after.active && after.cursor >= 1 && after.cursor <= len(snap.msgs) && after.cursor != before.cursor {
 				shown := false
 				for _, i := range after.shown {
